@@ -1,7 +1,7 @@
 use crate::transport::types::{EntityId, SequenceNumber};
 
 use super::super::{
-    error::RtpsMessageResult,
+    error::{RtpsMessageError, RtpsMessageResult},
     overall_structure::{
         Submessage, SubmessageHeaderRead, SubmessageHeaderWrite, TryReadFromBytes, Write,
         WriteIntoBytes,
@@ -24,12 +24,17 @@ impl GapSubmessage {
         mut data: &[u8],
     ) -> RtpsMessageResult<Self> {
         let endianness = submessage_header.endianness();
-        Ok(Self {
+        let gap = Self {
             reader_id: EntityId::try_read_from_bytes(&mut data, endianness)?,
             writer_id: EntityId::try_read_from_bytes(&mut data, endianness)?,
             gap_start: SequenceNumber::try_read_from_bytes(&mut data, endianness)?,
             gap_list: SequenceNumberSet::try_read_from_bytes(&mut data, endianness)?,
-        })
+        };
+        // 8.3.7.4.3 Validity: gapStart must be positive
+        if gap.gap_start <= 0 {
+            return Err(RtpsMessageError::InvalidData);
+        }
+        Ok(gap)
     }
 
     pub fn _reader_id(&self) -> EntityId {
